@@ -97,7 +97,15 @@ RULE = ("systems: LAMMPS-compatible cells (orthogonal/triclinic, any origin; rot
         "the physical system (angstrom/ps/amu/eV/e numbers) expressed in the working units set by reset_units(named units | "
         "integer seed | 'SI'), the judged dump + load preceded in two thirds of them by the same dump + load under the "
         "default or another configuration in the same process, the loads under yet another configuration where the file "
-        "fixes the unit of every dimensional column; histories with a change of configuration in the middle")
+        "fixes the unit of every dimensional column; histories with a change of configuration in the middle.  Round 5 classes "
+        "(drawn last, about 15-25 % of the cases each): almost orthogonal cells (tilt / length = +-10**[-12,-3]), exactly "
+        "structured cells (half / negative / cancelling tilts; table and POSCAR: signed axis permutations, upper-triangular, "
+        "cyclically relabelled, centred cells), atoms 10**[-12,-3] off a face, property columns over 16 decades and almost "
+        "integer / almost zero values, rows of coordinates over 8 decades, per-atom arrays stored as float32 / float16 / "
+        "big-endian / int8..uint16 at the dtype limits / bool, Fortran-ordered, strided, read-only, lists; loader dtype entries "
+        "float32, int16, dtype objects, Python types; post-ops of the caller (arguments, written system, loaded System and "
+        "returned prop_info overwritten in place, re-dump, another system in between) with a ledger of everything returned; "
+        "clause combos enumerates style sequences, position-column subsets, table routes and POSCAR options")
 ASSUMPTIONS = ["numpy/pandas number parsing and printf formatting are correct",
                "atomman.unitconvert (judged by C09) and the lammps.style unit table are used only to scale the "
                "tolerance of fixed-point formats (half a printed digit in file units), never for expected values",
@@ -119,7 +127,16 @@ ASSUMPTIONS = ["numpy/pandas number parsing and printf formatting are correct",
                "times the cell condition) and then adopted as the snapshot for the following steps",
                "an atom_id column counts as 'ids present' only when the description given to the loader names it 'id'",
                "on a tree where a listed finding blocks a whole clause (pandas readers, POSCAR writer) the non-vacuity "
-               "guards of that clause are switched off (probe in _tree_state); the oracles never consult the probe"]
+               "guards of that clause are switched off (probe in _tree_state); the oracles never consult the probe",
+               "a System keeps the Box object it is given (documented at System.__init__, safecopy): the Box handed to "
+               "load('table', box=) is not edited by the caller afterwards; every other argument container may be",
+               "float32 positions: System.wrap stores the wrapped coordinates in the caller's float32 array, so a data file of "
+               "such a system is judged to float32 resolution of the wrapped coordinate (the precision the caller chose); "
+               "read-only positions are not combined with the in-place wrap of dump('atom_data', safecopy=False)",
+               "atype and pos exist in every Atoms object with types of their own: a loader dtype entry for them is only "
+               "checked through the rounding it causes, for every other property the loaded dtype must be the given one",
+               "a cell handed to Box with a component up to 1e-9 of its largest one holds zero there (documented clean-up): "
+               "almost orthogonal cells are judged against the cleaned cell, ratios within 10 % of 1e-9 are not generated"]
 LEVEL_TEXT = ("generated systems written by atomman and read back in all four text formats (all atom styles incl. "
               "hybrid pairs, 8 unit styles, 4 float formats, scaled/unwrapped dump columns, POSCAR direct/Cartesian with "
               "scale factors), compared with an independent snapshot to the printed precision; shuffled atom lines, "
@@ -128,11 +145,15 @@ LEVEL_TEXT = ("generated systems written by atomman and read back in all four te
               "lists, None entries) and hand-written prop_info; histories of 2-5 dumps/modifications on one object "
               "(safecopy on and off) with every dump judged the same way; half of the cases under other process-global working "
               "units (reset_units named / seeded / SI) after an earlier dump + load under the default or another "
-              "configuration, loads under a different configuration where the file fixes the units")
+              "configuration, loads under a different configuration where the file fixes the units; near-threshold and exactly "
+              "structured cells, values over many decades, narrow / byte-swapped / strided / read-only storage and explicit loader "
+              "dtypes, caller-side overwriting of everything handed in and out with a bit-for-bit ledger of every returned "
+              "System and prop_info; enumerated style sequences, position-column subsets, table routes and POSCAR options")
 TECHNIQUE = ("round trip against an independent numpy snapshot with printed-precision tolerances; metamorphic "
              "text perturbation (line order, comments, blank lines, input source); negative cases by section deletion; "
              "model-based object histories; working-unit configurations as process history (same oracles after reset_units, "
-             "dump and load under different configurations)")
+             "dump and load under different configurations); result ledger and argument-identity checks around caller-side "
+             "mutation; enumerated option combinations")
 WALL = {'quick': 60, 'thorough': 540}
 
 EPS = 2.3e-16
